@@ -33,6 +33,7 @@ def tasks(tier, seed):
         t.append(('t1', sl, nsl, tier, seed))
         t.append(('t2', sl, nsl, tier, seed))
     t.append(('t4', 0, 1, tier, seed))
+    t.append(('big', 0, 1, tier, seed))
     if tier == 'quick':
         for sk, gk in F.t3_shards(0, 2, F.T3_KINDS_QUICK): t.append(('t3', 2, sk, gk, tier, seed))
         for sk, gk in F.t3_shards(1, 1, F.T3_KINDS): t.append(('t3', 2, sk, gk, tier, seed))
@@ -56,6 +57,7 @@ def gen(task):
     if fam == 't1': return F.take_slice(F.t1(), task[2], task[1])
     if fam == 't2': return F.take_slice(F.t2(), task[2], task[1])
     if fam == 't4': return F.t4()
+    if fam == 'big': return F.big()
     if fam == 't3': return F.t3_shard(task[1], task[2], task[3], extra_tap=True)
     raise KeyError(fam)
 
